@@ -129,7 +129,10 @@ def render_mod(m):
 
 def files_of(m, prefix=""):
     out = {}
-    if m.pkg:
+    if not m.name:
+        for s in m.subs:
+            out.update(files_of(s, prefix))
+    elif m.pkg:
         out[f"{prefix}{m.name}/__init__.py"] = render_mod(m)
         for s in m.subs:
             out.update(files_of(s, f"{prefix}{m.name}/"))
@@ -152,8 +155,10 @@ def bound(d):
 
 
 def iter_mods(m, path=None):
+    """Modules with their dotted paths.  A Mod named "" is a virtual container of several top-level packages (not yielded)."""
     path = (path + "." if path else "") + m.name
-    yield m, path
+    if m.name:
+        yield m, path
     for s in m.subs:
         yield from iter_mods(s, path)
 
@@ -244,8 +249,10 @@ def gen_mod(rng, name, pkg=False):
     return m
 
 
-def gen_pkg(rng, stream):
-    root = gen_mod(rng, "pkg", True)
+def gen_pkg(rng, stream, facade=False):
+    """A package `pkg`; with facade=True the layout Griffe itself uses: a private top-level package `_pkg` holding the code and a
+    public top-level package `pkg` whose __init__ re-exports from it through __all__."""
+    root = gen_mod(rng, "_pkg" if facade else "pkg", True)
     names = rng.sample(["a", "b", "c", "_impl", "_util", "sub"], rng.randint(1, 4))
     for n in names:
         if n == "sub":
@@ -314,9 +321,25 @@ def gen_pkg(rng, stream):
                 if m_.all is not None and rng.random() < 0.7:
                     m_.all.append("cyc")
         else:
-            root.defs.append({"kind": "import", "frm": "pkg", "name": "cyc"})
+            root.defs.append({"kind": "import", "frm": root.name, "name": "cyc"})
             root.all = (root.all or []) + ["cyc"]
-    return root
+    if not facade:
+        return root
+    fac = Mod("pkg", True)
+    used = set()
+    for m, mp in mods:
+        if mp.count(".") > 1:
+            continue
+        for d in m.defs:
+            nm = bound(d)
+            if nm in used or (nm.startswith("_") and rng.random() < 0.8) or rng.random() < 0.25:
+                continue
+            used.add(nm)
+            fac.defs.append({"kind": "import", "frm": mp, "name": nm})
+    fac.all = [bound(d) for d in fac.defs if rng.random() < 0.9] or None
+    top = Mod("", True)
+    top.subs = [fac, root]
+    return top
 
 
 # --------------------------------------------------------------------------------------------------------------------
@@ -470,6 +493,34 @@ def e_remove_base(rng, pkg):
     return {"edit": "remove-base", "class": "incompatible", "path": p, "expect": "CLASS_REMOVED_BASE", "touched": []}
 
 
+def e_class_combo(rng, pkg):
+    """Two incompatible edits on the same class: a base is removed AND one of its own members is removed / re-kinded / revalued."""
+    t = pick_def(rng, pkg, {"class"}, lambda d: d["bases"] and any(x["kind"] in ("func", "attr", "class") for x in d["body"]))
+    if not t:
+        return None
+    lst, d, p, mod, mp = t
+    d["bases"].pop(rng.randrange(len(d["bases"])))
+    metas = [{"edit": "remove-base", "class": "incompatible", "path": p, "expect": "CLASS_REMOVED_BASE", "touched": []}]
+    x = rng.choice(d["body"])
+    ops = ["remove", "rekind"] + (["value", "value"] if x["kind"] == "attr" and x["value"] is not None else [])
+    op = rng.choice(ops)
+    xp = f"{p}.{x['name']}"
+    if op == "remove":
+        d["body"].remove(x)
+        metas.append({"edit": "remove-" + x["kind"], "class": "incompatible", "path": xp, "expect": "OBJECT_REMOVED", "touched": []})
+    elif op == "value":
+        x["value"] = rng.choice([v for v in (None, 1, 2, 3, 7) if v != x["value"]])
+        metas.append({"edit": "change-value", "class": "incompatible", "path": xp, "expect": "ATTRIBUTE_CHANGED_VALUE", "touched": []})
+    else:
+        old = x["kind"]
+        new = rng.choice([k for k in ("func", "attr") if k != old])
+        name = x["name"]
+        x.clear()
+        x.update({"kind": "func", "name": name, "sig": (), "ret": None} if new == "func" else {"kind": "attr", "name": name, "value": 1})
+        metas.append({"edit": f"rekind-{old}-to-{new}", "class": "incompatible", "path": xp, "expect": "OBJECT_CHANGED_KIND", "touched": []})
+    return metas
+
+
 def e_change_base(rng, pkg):
     """Replace a base by another class name, or reorder the bases (same number of bases: not a removed base)."""
     t = pick_def(rng, pkg, {"class"}, lambda d: d["bases"])
@@ -607,7 +658,7 @@ EDITS = {
     "remove-def": e_remove_def, "remove-reexport": e_remove_reexport, "remove-module": e_remove_module,
     "change-kind": e_change_kind, "remove-base": e_remove_base, "change-value": e_change_value, "param": e_param,
     "drop-return": e_drop_return,
-    "change-base": e_change_base, "retarget": e_retarget, "all": e_all, "reorder": e_reorder, "dangle": e_dangle,
+    "class-combo": e_class_combo, "change-base": e_change_base, "retarget": e_retarget, "all": e_all, "reorder": e_reorder, "dangle": e_dangle,
 }
 COMPAT = ["add-public", "add-private", "add-module", "add-optional-kwonly"]
 INCOMPAT = ["remove-def", "remove-def", "remove-reexport", "remove-module", "change-kind", "change-kind", "remove-base", "change-value",
@@ -861,8 +912,7 @@ class Case:
         for path, val in self.overrides:
             for t in (self.old, self.new):
                 try:
-                    o = t[path.split(".", 1)[1]]
-                    o.public = val
+                    t.modules_collection.get_member(path).public = val
                 except Exception:  # noqa: BLE001
                     pass
 
@@ -878,6 +928,7 @@ def run_cases(ctx, cases, tally):
             ctx.tie_failure("harness", "generated package does not load", repr(e)[:300], c.json)
             continue
         status, ibs = impl_diff(c.old, c.new)
+        c.result = (status, ibs)
         I, pn = Interner(), {}
         try:
             ao, an = Abstraction(c.old, I, pn), Abstraction(c.new, I, pn)
@@ -994,6 +1045,36 @@ def evaluate(ctx, c, status, ibs, mstatus, mbs, wf, consistent, exitc, ao, an, l
         return
     all_private = True
     base_names = {b for _, d, _, _, _ in iter_defs(c.old_spec) if d["kind"] == "class" for b in d["bases"]}
+    own_members = {p: {bound(x) for x in d["body"]} for _, d, p, _, _ in iter_defs(c.old_spec) if d["kind"] == "class"}
+
+    def interferes(m, acc):
+        """Does another edit of the script take away the route on which edit m would be observed?
+        - a neutral edit (retarget, __all__, dangling re-export, base swap) may change what is public or what is compared;
+        - an edit of the very same object (e.g. a parameter added then removed);
+        - a removal / re-kinding of the object itself, of an enclosing object or of a re-export leading to it (then only that is reported);
+        - a removed / re-kinded name that is used as a base class somewhere (inherited routes change);
+        - a base removal on a class, for objects seen only through that class's inherited members (own members are unaffected)."""
+        for x in metas:
+            if x is m:
+                continue
+            if x["class"] == "neutral":
+                return True
+            destructive = x.get("expect") in ("OBJECT_REMOVED", "OBJECT_CHANGED_KIND")
+            if destructive and x["path"].rpartition(".")[2] in base_names:
+                return True
+            for q in [x.get("path", "")] + x.get("touched", []):
+                if not q:
+                    continue
+                for a in acc:
+                    if a == q:
+                        return True
+                    if a.startswith(q + "."):
+                        if destructive:
+                            return True
+                        if x.get("expect") == "CLASS_REMOVED_BASE" and a[len(q) + 1:].split(".")[0] not in own_members.get(q, ()):
+                            return True
+        return False
+
     for m in metas:
         if m["class"] == "incompatible" and m["path"].rpartition(".")[2] in base_names:
             all_private = False      # the edited name is used as a base class somewhere: inherited members of other classes may change
@@ -1013,12 +1094,13 @@ def evaluate(ctx, c, status, ibs, mstatus, mbs, wf, consistent, exitc, ao, an, l
         if not public:
             continue
         tally["public_incompatible_edits"] += 1
-        if any(x is not m and x.get("path") == m["path"] for x in metas):
-            continue     # another edit of the script touched the same object (e.g. added then removed the same parameter)
-        if len(metas) > 1 and not all(x["class"] == "compatible" or x is m for x in metas):
-            # several incompatible/neutral edits may interact (an ancestor removed, a re-export retargeted): only single
-            # incompatible edits (optionally mixed with compatible ones) carry the per-edit expectation
+        # Every incompatible edit of a script carries its own expectation, unless another edit of the script interferes with it:
+        if interferes(m, acc):
+            tally["edit_expectation_skipped"] += 1
             continue
+        tally["edit_expectations"] += 1
+        if len(metas) > 1:
+            tally["edit_expectations_in_multi_edit_scripts"] += 1
         hit = [b for b in ibs if b[0] == m["expect"] and b[1] in acc]
         if m["expect"] == "PARAMETER_REMOVED":
             hit = [b for b in ibs if b[0].startswith("PARAMETER_") and b[1] in acc]
@@ -1128,16 +1210,22 @@ def cli_case(ctx, k, c):
     git(repo, "tag", "v0")
     shutil.rmtree(repo / "src")
     write_tree(repo / "src", c.fn)
+    args = ["-a", "v0"]
+    if k % 2:        # compare two committed revisions (-b) instead of the working tree
+        git(repo, "add", "-A")
+        git(repo, "commit", "-q", "--allow-empty", "-m", "new")
+        git(repo, "tag", "v1")
+        args += ["-b", "v1"]
     env = dict(os.environ, PYTHONPATH=os.environ.get("GRIFFE_REPO", "/repo") + "/src", PYTHONHASHSEED="0", NO_COLOR="1")
     env.pop("FORCE_COLOR", None)
-    p = subprocess.run([sys.executable, "-m", "griffe", "check", "pkg", "-a", "v0", "-s", "src"], cwd=repo, capture_output=True, text=True,
+    p = subprocess.run([sys.executable, "-m", "griffe", "check", "pkg", *args, "-s", "src"], cwd=repo, capture_output=True, text=True,
                        timeout=120, env=env)
     write_tree(ctx.scratch / f"cli{k}" / "old", c.fo)
     write_tree(ctx.scratch / f"cli{k}" / "new", c.fn)
     status, ibs = impl_diff(load_pkg(ctx.scratch / f"cli{k}" / "old"), load_pkg(ctx.scratch / f"cli{k}" / "new"))
     ctx.count("cli_runs")
     reported = [l for l in p.stderr.split("\n") if l.strip() and ": " in l and not l.startswith(("Traceback", " ", "\t"))]
-    ctx.observe("cli", f"rc={p.returncode} api={'nonempty' if ibs else 'empty'}/{status}")
+    ctx.observe("cli", f"rc={p.returncode} api={'nonempty' if ibs else 'empty'}/{status} {'facade' if c.stream.startswith('facade') else 'single'} {' '.join(args[2:3]) or 'worktree'}")
     if status == "ok":
         if (p.returncode != 0) != bool(ibs) or p.returncode not in (0, 1):
             ctx.property_failure(dict(c.json, cli=True), {"exit code": p.returncode, "find_breaking_changes": ibs[:5], "stderr": p.stderr[-400:]})
@@ -1154,11 +1242,26 @@ def cli_case(ctx, k, c):
 # --------------------------------------------------------------------------------------------------------------------
 def make_case(ctx, stream):
     rng = ctx.rng
-    old = gen_pkg(rng, stream)
+    label = stream
+    facade = stream.startswith("facade:")
+    if facade:
+        stream = stream.split(":", 1)[1]
+    old = gen_pkg(rng, stream, facade=facade)
     new = copy.deepcopy(old)
     metas = []
     if stream == "identical" or stream == "cyclic" and rng.random() < 0.5:
         pass
+    elif stream == "class-combo":
+        metas = e_class_combo(rng, new) or []
+        if rng.random() < 0.3:
+            m = EDITS[rng.choice(COMPAT + INCOMPAT)](rng, new)
+            if m:
+                metas.append(m)
+    elif stream == "incompatible-multi":
+        for k in range(rng.randint(2, 3)):
+            m = EDITS[rng.choice(INCOMPAT + ["class-combo"])](rng, new)
+            if m:
+                metas += m if isinstance(m, list) else [m]
     else:
         if stream == "compatible":
             pool, n = COMPAT, rng.randint(1, 3)
@@ -1172,17 +1275,17 @@ def make_case(ctx, stream):
             name = rng.choice(pool) if pool else (rng.choice(INCOMPAT) if k == 0 else rng.choice(COMPAT))
             m = EDITS[name](rng, new)
             if m:
-                metas.append(m)
+                metas += m if isinstance(m, list) else [m]
     overrides = []
     if rng.random() < 0.15:
         defs = [p for _, d, p, _, _ in iter_defs(old)]
         for p in rng.sample(defs, min(len(defs), rng.randint(1, 2))):
             overrides.append((p, rng.choice([True, False])))
-    return Case(ctx, old, new, metas, stream, tuple(overrides))
+    return Case(ctx, old, new, metas, label, tuple(overrides))
 
 
 STREAMS = ["identical", "compatible", "compatible", "incompatible", "incompatible", "incompatible", "incompatible+compatible", "mixed", "mixed",
-           "empty-all", "cyclic"]
+           "empty-all", "cyclic", "class-combo", "incompatible-multi", "facade:incompatible", "facade:compatible", "facade:mixed"]
 
 
 def explore(ctx):
@@ -1211,10 +1314,18 @@ def explore(ctx):
         if not tally[key]:
             ctx.tie_failure("harness", f"degenerate generation: no case exercised `{key}`", dict(tally))
     # CLI exit code
-    ncli = ctx.budget(6, 40)
-    pick = [c for c in cases if c.stream in ("identical", "compatible", "incompatible", "mixed")]
-    pick = [c for c in pick if c.stream == "identical"][:1] + [c for c in pick if c.stream == "compatible"][:max(1, ncli // 5)] + \
-           [c for c in pick if c.stream in ("incompatible", "mixed")]
+    # (half of the runs on the facade layout pkg -> _pkg with breakages inside re-exported objects; both working-tree and -b modes)
+    ncli = ctx.budget(8, 40)
+    ok = [c for c in cases if not c.overrides and getattr(c, "result", ("", []))[0] == "ok"]
+    broken = lambda c: bool(c.result[1])
+    fac_bad = [c for c in ok if c.stream.startswith("facade") and broken(c)]
+    fac_good = [c for c in ok if c.stream == "facade:compatible" and not broken(c)]
+    one_bad = [c for c in ok if c.stream in ("incompatible", "mixed", "class-combo") and broken(c)]
+    one_good = [c for c in ok if c.stream in ("identical", "compatible") and not broken(c)]
+    if not fac_bad:
+        ctx.tie_failure("harness", "degenerate generation: no facade-layout case with a reported breakage for the CLI check", None)
+    q = max(1, ncli // 8)
+    pick = fac_bad[:3 * q] + fac_good[:q] + one_bad[:3 * q] + one_good[:q]
     for k, c in enumerate(pick[:ncli]):
         cli_case(ctx, k, c)
     if not ctx.quick and first:
@@ -1291,7 +1402,7 @@ def replay(ctx, data):
     for path, val in case.get("overrides", []):
         for t in (old, new):
             try:
-                t[path.split(".", 1)[1]].public = val
+                t.modules_collection.get_member(path).public = val
             except Exception:  # noqa: BLE001
                 pass
     print("edits:", case.get("edits"))
